@@ -14,7 +14,7 @@ CONSTANTS
   UsageHas,                    \* subset of BOOLEAN
   UsageStep, MaxUsage, MaxSys, MaxKRes, MaxAnno, MaxApp, MaxReq,
   Ages,
-  PodSets,                     \* set of sequences of [prio, qos, phase]
+  PodSets,                     \* set of sequences of [prio, qos, phase, term]
   AppSets
 
 VARIABLE inp
@@ -28,7 +28,8 @@ Init ==
            apps |-> [k \in 1..Len(hs) |-> [prio |-> hs[k], use |-> RR(0)]],
            usage |-> [has |-> uh, cpu |-> 0, mem |-> 0],
            prodrec |-> [has |-> pr[1], cpu |-> pr[2], mem |-> pr[2]],
-           pods |-> [k \in 1..Len(ps) |-> [prio |-> ps[k].prio, qos |-> ps[k].qos, phase |-> ps[k].phase, req |-> RR(0)]],
+           pods |-> [k \in 1..Len(ps) |-> [prio |-> ps[k].prio, qos |-> ps[k].qos, phase |-> ps[k].phase, term |-> ps[k].term,
+                                            req |-> RR(0)]],
            mthr |-> RR(mt), upct |-> up, mode |-> md[1], spct |-> RR(md[2])]
 
 Ev(w, k, d) == [what |-> w, k |-> k, by |-> RR(d)]
@@ -53,13 +54,15 @@ RaiseIsRaise == [][MidDominates(inp', inp)]_vars
 Mono == [][MidMonoOK(MidImpl(inp), MidImpl(inp'))]_vars
 
 \* ---------------------------------------------------------------- menus
-P(pr, q, ph) == [prio |-> pr, qos |-> q, phase |-> ph]
+P(pr, q, ph) == [prio |-> pr, qos |-> q, phase |-> ph, term |-> FALSE]
+PT(pr, q, ph) == [prio |-> pr, qos |-> q, phase |-> ph, term |-> TRUE]      \* being deleted
 PodsQuick == {<<>>, <<P("prod", "LS", "Running")>>, <<P("mid", "LS", "Running")>>, <<P("batch", "BE", "Running")>>,
-              <<P("prod", "LS", "Succeeded")>>}
+              <<P("prod", "LS", "Succeeded")>>, <<PT("prod", "LS", "Running")>>}
 PodsAll == PodsQuick \cup {<<P("none", "LS", "Running")>>, <<P("none", "BE", "Running")>>, <<P("free", "BE", "Running")>>,
                            <<P("prod", "LSE", "Pending")>>, <<P("prod", "LS", "Failed")>>,
                            <<P("prod", "LS", "Running"), P("prod", "LSR", "Running")>>,
-                           <<P("prod", "LS", "Running"), P("mid", "LS", "Running")>>}
+                           <<P("prod", "LS", "Running"), P("mid", "LS", "Running")>>,
+                           <<PT("prod", "LS", "Pending")>>, <<P("prod", "LS", "Running"), PT("prod", "LSR", "Running")>>}
 AppsQuick == {<<>>, <<"prod">>, <<"mid">>}
 AppsAll == {<<>>, <<"prod">>, <<"mid">>, <<"batch">>}
 ModesQuick == {<<"", 0>>, <<"static", 50>>}
